@@ -507,6 +507,12 @@ def validate_batches(chk, module, tracefiles, cfg=None, parallel=8, timeout=900,
         for d in r.vf("deviation"):
             fid = d.split(",")[0].strip().strip('"')
             chk.known(fid, d)
+        # VF:policy = the code departs from an implementation-shaped model that is tracked next to the property-level
+        # obligations (cache replacement policy, table layout): recorded in the evidence, never a violation
+        for nt in r.vf("policy"):
+            notes = chk.extra.setdefault("policy_notes", [])
+            if len(notes) < 5:
+                notes.append("%s: %s" % (os.path.basename(tf), nt[:240]))
         nexec = sum(1 for line in open(tf) if '"e":"Reset"' in line)
         if ok:
             accepted_exec += nexec
